@@ -339,7 +339,16 @@ pub fn run(c: &C14Case) -> Outcome {
 			.watches
 			.iter()
 			.map(|i| {
-				if t.all_dirs.is_empty() {
+				// the four highest values name the origin itself and directories above it (a watch on a parent
+				// directory contains the whole project)
+				if *i >= 0xFFFC {
+					match *i {
+						0xFFFC => t.origin.clone(),
+						0xFFFD => PathBuf::from("/"),
+						0xFFFE => t.origin.parent().and_then(Path::parent).unwrap_or(Path::new("/")).to_path_buf(),
+						_ => t.origin.parent().unwrap_or(Path::new("/")).to_path_buf(),
+					}
+				} else if t.all_dirs.is_empty() {
 					t.origin.clone()
 				} else {
 					join(&t.origin, &t.all_dirs[crate::engine::idx(*i, t.all_dirs.len())])
@@ -364,6 +373,9 @@ pub fn run(c: &C14Case) -> Outcome {
 	});
 	if prefix_pair {
 		o.label("prefix-sibling-pair");
+	}
+	if c.watches.iter().any(|i| *i >= 0xFFFD) {
+		o.label("watch-above-the-origin");
 	}
 	if !watches.is_empty() {
 		o.label("explicit-watches");
@@ -443,7 +455,7 @@ fn strategy() -> BoxedStrategy<C14Case> {
 				proptest::collection::vec(ig, 1..7),
 				proptest::collection::vec((0u8..4, proptest::collection::vec(dpat.clone(), 1..3)), 0..2),
 				proptest::collection::vec(0u8..7, 0..2),
-				prop_oneof![3 => Just(vec![]), 1 => proptest::collection::vec(any::<u16>(), 1..3)],
+				prop_oneof![3 => Just(vec![]), 1 => proptest::collection::vec(prop_oneof![4 => any::<u16>(), 1 => 0xFFFCu16..=0xFFFF], 1..3)],
 				proptest::collection::vec(proptest::collection::vec(dpat, 1..3), 0..2),
 				prop_oneof![2 => Just(vec![]), 1 => proptest::collection::vec(any::<u16>(), 1..3)],
 			)
@@ -467,7 +479,7 @@ pub fn check(e: &Engine) {
 		"discovery",
 		LegOpts::det(
 			e.tier.pick(3_000, 60_000),
-			"generated trees (depth <=3, names from a 3-name alphabet often containing test/tests), 1-6 ignore files (.ignore/.gitignore/.hgignore; non-empty, empty, a directory of that name, a file that cannot be loaded: invalid glob / not UTF-8, or a symbolic link to a regular file outside the tree) with directory-oriented patterns incl. negations, origin-level VCS files, VCS metadata dirs with decoys, explicit watch lists and explicit ignore files (separate files, and a third of the time also ignore files of the tree itself passed as explicit ones); result compared as a set with an independent walker; same tree created in the opposite order must give the same set; non-trivial = pruned subtree containing an ignore file, prefix-sibling pair, or explicit watch list",
+			"generated trees (depth <=3, names from a 3-name alphabet often containing test/tests), 1-6 ignore files (.ignore/.gitignore/.hgignore; non-empty, empty, a directory of that name, a file that cannot be loaded: invalid glob / not UTF-8, or a symbolic link to a regular file outside the tree) with directory-oriented patterns incl. negations, origin-level VCS files, VCS metadata dirs with decoys, explicit watch lists (directories of the tree, the origin itself, its parent, its grandparent or /) and explicit ignore files (separate files, and a third of the time also ignore files of the tree itself passed as explicit ones); result compared as a set with an independent walker; same tree created in the opposite order must give the same set; non-trivial = pruned subtree containing an ignore file, prefix-sibling pair, or explicit watch list",
 		),
 		&strategy,
 		&run,
